@@ -7,6 +7,16 @@ def main(tier):
     run = PropertyRun('C07', tier, level='proof')
     for fmt in ('tcp', 'usb', 'yd', 'actisense', 'basic'):
         run.add(DecoderTask(fmt, prop='C07'))
+    # frame-level formats parse the 29-bit identifier, message-level formats read the PGN number: both agree only if
+    # _extract_header meets its contract (also part of C05)
+    from pyvc.tasks import SpecTask, with_prop
+    from contracts.headers import ExtractHeader
+    run.add(SpecTask(with_prop(ExtractHeader(), 'C07')))
+    # "a fast-packet message delivered frame by frame equals the same payload delivered pre-assembled": the reassembly
+    # transition contract (also part of C04) - completion delivers exactly the announced payload and forgets the record
+    from props.C04 import TransitionTask
+    for m in range(0, 9):
+        run.add(TransitionTask(m, prop='C07'))
     from props import C07_extra
     C07_extra.add(run, tier)
     run.extra_cov['exhaustive'] = True
